@@ -120,31 +120,29 @@ fn record_orders(t: &Ty, out: &mut Vec<Vec<String>>) {
     }
 }
 
-/// an annotation `(e : T)` where `T` mentions a record type and `e` contains a record literal with
-/// the same field names in another order
+/// Two record literals / annotated record types with the same field names in different orders.
+/// Gluon unifies such types (check/src/unify_type.rs unify_rows gathers fields by name) although
+/// the run-time layout of a record follows the order of the literal that built it.
 fn has_reordered_annotated_record(e: &Expr) -> bool {
-    let mut found = false;
-    e.visit(&mut |x| {
-        if let Expr::Ann(inner, t) = x {
-            let mut orders = vec![];
-            record_orders(t, &mut orders);
-            inner.visit(&mut |y| {
-                if let Expr::Record(fs, None) = y {
-                    let names: Vec<String> = fs.iter().map(|f| f.0.clone()).collect();
-                    let mut sorted = names.clone();
-                    sorted.sort();
-                    for o in &orders {
-                        let mut so = o.clone();
-                        so.sort();
-                        if so == sorted && *o != names {
-                            found = true;
-                        }
-                    }
-                }
-            });
-        }
+    let mut orders: Vec<Vec<String>> = vec![];
+    e.visit(&mut |x| match x {
+        Expr::Ann(_, t) => record_orders(t, &mut orders),
+        Expr::Record(fs, None) => orders.push(fs.iter().map(|f| f.0.clone()).collect()),
+        _ => {}
     });
-    found
+    let mut by_set: std::collections::HashMap<Vec<String>, Vec<String>> = std::collections::HashMap::new();
+    for o in orders {
+        let mut k = o.clone();
+        k.sort();
+        match by_set.get(&k) {
+            Some(first) if *first != o => return true,
+            Some(_) => {}
+            None => {
+                by_set.insert(k, o);
+            }
+        }
+    }
+    false
 }
 
 fn src_has_multi_record_alts(src: &str) -> bool {
@@ -274,7 +272,7 @@ fn judge(p: &Prog, bits: u32, r: &serde_json::Value) -> Option<Failure> {
             } else if multi {
                 format!("shape:{}:multi-record-alts", slug(c))
             } else if p.ast.as_ref().map_or(false, |(a, _)| has_reordered_annotated_record(&a.expr)) {
-                format!("shape:{}:annotated-record-field-order", slug(c))
+                format!("shape:{}:permuted-record-fields", slug(c))
             } else {
                 format!("shape:{}:{:08x}", slug(c), fnv(p.main.as_bytes()) as u32)
             };
